@@ -41,7 +41,102 @@ pub fn spec(tier: Tier) -> RelSpec {
         exh_size: (2, 1),
         decides: vec![Kind::Rows, Kind::Arity, Kind::EngineReject],
         keyfn,
-        extra: None,
+        extra: Some(named_values_part),
+    }
+}
+
+/// Scalars that reach their place of use through a name — a `let` constant, a user-function parameter — and
+/// relation literals whose rows spell their fields in another order. Each template is compiled twice: with the
+/// names, and with the values written in place (the form the main exploration compares with the reference
+/// interpreter); both statements are executed on the instance pool and must return the same columns and rows.
+fn named_values_part(run: &mut crate::report::Run, tier: Tier) {
+    use crate::relcheck::{dname, opts, EXEC_DIALECTS};
+    use serde_json::json;
+    // ¤ = the constant (name or literal), §f = a function of one parameter applied to an expression
+    const TEMPLATES: &[&str] = &[
+        "from t | select {x = ¤, y = ¤}",
+        "from t | select {a, x = ¤, y = ¤, z = ¤}",
+        "from t | derive {x = ¤} | filter a > 0 | derive {y = ¤}",
+        "from t | select {a, x = ¤ + a, y = ¤ * 2}",
+        "from t | filter a > ¤ | derive {y = ¤}",
+        "from t | sort a | take 2 | derive {x = ¤, y = ¤}",
+        "from t | derive {x = ¤} | sort a | take 2 | derive {y = ¤} | select {x, y, a}",
+        "from t | group a (aggregate {s = sum b, c = max ¤, d = min ¤})",
+        "from t | join u (==a) | select {t.a, u.d, x = ¤, y = ¤}",
+        "from t | select {a, x = ¤} | append (from u | select {a, x = ¤})",
+        "from t | derive {x = ¤, y = ¤} | filter x == y | select {a, y}",
+        "from t | select {a, x = case [a > ¤ => ¤, true => 0]}",
+    ];
+    const CONSTS: &[&str] = &["5", "2.5", "'k'", "true", "null", "1 + 2"];
+    let pool = crate::inst::pool();
+    let db = crate::sqlite::Db::new();
+    let mut cases: Vec<(String, String, &str)> = vec![];
+    for t in TEMPLATES {
+        for k in CONSTS {
+            let inline = t.replace('¤', &format!("({k})"));
+            cases.push((format!("let kc = {k}\n{}", t.replace('¤', "kc")), inline.clone(), "let-constant"));
+            cases.push((format!("let idf = p -> p\n{}", t.replace('¤', &format!("(idf ({k}))"))), inline.clone(), "function-parameter"));
+            cases.push((format!("module mk {{ let kc = {k} }}\n{}", t.replace('¤', "mk.kc")), inline, "module-constant"));
+        }
+    }
+    // a function whose parameter occurs twice in its body
+    for (body, inl) in [("{p = e, q = e}", "{p = a + 1, q = a + 1}"), ("{p = e + 1, q = e * 2, r = e}", "{p = (a + 1) + 1, q = (a + 1) * 2, r = a + 1}")] {
+        cases.push((format!("let twice = e -> {body}\nfrom t | select (twice (a + 1))"), format!("from t | select {inl}"), "parameter-used-twice"));
+    }
+    // relation literals: fields of later rows in another order
+    if tier == Tier::Thorough || true {
+        cases.push(("from [{a = 1, b = 2}, {b = 3, a = 4}]".into(), "from [{a = 1, b = 2}, {a = 4, b = 3}]".into(), "relation-literal-field-order"));
+        cases.push(("from [{a = 1, b = 'x'}, {b = 'y', a = 2}] | filter a > 1".into(), "from [{a = 1, b = 'x'}, {a = 2, b = 'y'}] | filter a > 1".into(), "relation-literal-field-order"));
+    }
+    let mut reported = std::collections::BTreeSet::new();
+    for (named, inline, how) in &cases {
+        for d in EXEC_DIALECTS.iter() {
+            run.count("named_values:cases", 1);
+            let compile = |s: &str| match crate::iso::guard(|| prqlc::compile(s, &opts(*d))) {
+                Ok(Ok(sql)) => Ok(sql),
+                Ok(Err(e)) => Err(crate::relcheck::err_text(&e)),
+                Err(p) => Err(format!("panic at {}", p.site)),
+            };
+            // the in-place form is the yardstick: where it does not compile there is nothing to compare with
+            let Ok(isql) = compile(inline) else {
+                run.count("named_values:in_place_form_not_compiled", 1);
+                continue;
+            };
+            let nsql = match compile(named) {
+                Ok(s) => s,
+                Err(e) => {
+                    if reported.insert((how.to_string(), "rejected".to_string())) {
+                        run.violate(Some(format!("named-value-form-rejected:{how}")), format!("[{}] {} is rejected ({e}); with the value in place it compiles: {}", dname(*d), named.replace('\n', " | "), inline), json!({"driver":"named-values","prql": named, "in_place": inline, "dialect": dname(*d)}));
+                    }
+                    continue;
+                }
+            };
+            for inst in pool.iter().take(8) {
+                db.load(inst);
+                let (a, b) = (db.query(&nsql), db.query(&isql));
+                run.validated += 1;
+                let same = match (&a, &b) {
+                    (Ok((n1, r1)), Ok((n2, r2))) => {
+                        let (mut r1, mut r2) = (r1.clone(), r2.clone());
+                        r1.sort_by(|x, y| row_cmp(x, y));
+                        r2.sort_by(|x, y| row_cmp(x, y));
+                        n1.len() == n2.len() && r1.len() == r2.len() && r1.iter().zip(&r2).all(|(x, y)| row_eq(x, y))
+                    }
+                    (Err(_), Err(_)) => true,
+                    _ => false,
+                };
+                if !same {
+                    if reported.insert((how.to_string(), named.clone())) {
+                        run.violate(
+                            Some(format!("named-value-differs-from-value-in-place:{how}")),
+                            format!("[{}] {} → {} differs from {} → {} on {}", dname(*d), named.replace('\n', " | "), nsql.replace('\n', " "), inline, isql.replace('\n', " "), inst.show()),
+                            json!({"driver":"named-values","prql": named, "in_place": inline, "dialect": dname(*d), "sql": nsql, "sql_in_place": isql, "instance": inst.show()}),
+                        );
+                    }
+                    break;
+                }
+            }
+        }
     }
 }
 
